@@ -104,7 +104,7 @@ func checkC03(c *Ctx) {
 	// ---- R2 binder arms
 	c.Rule("C03.R2.binder", "required / empty / conversion / body / validation arms of the binder sit under the prescribed flags, with the prescribed arguments", 40)
 	checkEmitRules(c, "C03.R2.binder", ev, paramBinderRules)
-	checkBinderLocations(c, ev)
+	checkBinderLocations(c, "C03.R2.locations", ev)
 
 	// ---- R3 Go side
 	checkParamFlags(c, gen)
@@ -125,8 +125,7 @@ func checkC03(c *Ctx) {
 }
 
 // checkBinderLocations: one arm per location × arity with the matching accessor.
-func checkBinderLocations(c *Ctx, ev *tmpl.Evaluator) {
-	rule := "C03.R2.locations"
+func checkBinderLocations(c *Ctx, rule string, ev *tmpl.Evaluator) {
 	c.Rule(rule, "BindRequest reads each parameter from the source of its own location, for scalars and arrays alike; header access is canonicalised", 10)
 	l := linearOf(c, ev, "serverParameter")
 	if l == nil {
